@@ -84,6 +84,7 @@ pub fn configs(ctx: &Ctx) -> Vec<DistSpec> {
         for _ in 0..n_random {
             v.push(env::cont_random(fam, Scalar::F32, &mut r));
         }
+        v.extend(env::special_cross(fam, Scalar::F32).into_iter().filter(|s| build_caught(s).is_ok()));
     }
     v
 }
